@@ -254,7 +254,8 @@ fn c13_shared(out: &mut dyn Write, tier: &str, rng: &mut Rng, st: &mut Stats) {
     use rsbdd::NamedSymbol;
     let n = if tier == "thorough" { 4000 } else { 200 };
     for _ in 0..n {
-        let env: Rc<BDDEnv<NamedSymbol>> = Rc::new(BDDEnv::new());
+        // an environment is made by `new()` or, every third time, by `Default` (the two must be the same environment)
+        let env: Rc<BDDEnv<NamedSymbol>> = if rng.chance(1, 3) { st.hit("shared.env-by-default"); Rc::default() } else { Rc::new(BDDEnv::new()) };
         let mut seen: HashMap<String, usize> = HashMap::new(); // structure (ids only) -> address
         let steps = 2 + rng.below(4);
         for _ in 0..steps {
@@ -308,7 +309,7 @@ pub fn c13(out: &mut dyn Write, tier: &str, rng: &mut Rng, st: &mut Stats) {
     c13_shared(out, tier, rng, st);
     let hists = if tier == "thorough" { 12000 } else { 60 };
     for h in 0..hists {
-        let env: BDDEnv<usize> = BDDEnv::new();
+        let env: BDDEnv<usize> = if h % 3 == 2 { st.hit("history.env-by-default"); BDDEnv::default() } else { BDDEnv::new() };
         let mut names = Names { map: HashMap::new() };
         let mut regs: Vec<B> = Vec::new();
         // every fifth history starts with a bulk of small diagrams over 40 variables (each variable, and the conjunction
